@@ -816,10 +816,21 @@ class Gen:
         return mk_problem(name, env, agents, self.goals(agents, env, which))
 
 
+def canon_action(act):
+    """the action as the library stores it: add_precondition drops TRUE and duplicates"""
+    pre = []
+    for p in act[3][1:]:
+        if p != T and p not in pre:
+            pre.append(p)
+    return act[:3] + [["pre"] + pre, act[4]]
+
+
 def mk_problem(name, env, agents, goals):
+    """payloads describe problems AS STORED by the library: add_goal drops TRUE"""
     return ["maproblem", name, ["env"] + env,
-            ["agents"] + [["agent", a["name"], ["fluents"] + a["fluents"], ["actions"] + a["actions"]] for a in agents],
-            ["goals"] + goals]
+            ["agents"] + [["agent", a["name"], ["fluents"] + a["fluents"], ["actions"] + [canon_action(x) for x in a["actions"]]]
+                          for a in agents],
+            ["goals"] + [g for g in goals if g != T]]
 
 
 def sample_states(rng, ps, n=3):
